@@ -155,6 +155,15 @@ CHECKS.update({
         'note': 'trusted: refSplit/refDecode and the file-tree model in harness/daemon_driver.cpp; malformed escapes judged for confinement only',
         'technique': 'exhaustive/random differential monitor of the real request parsers against reference parsers and a file-system model, ASan/UBSan',
     },
+    'C20': {
+        'text': 'Four libFuzzer targets (clang, ASan+UBSan, reports fatal) drive the real protocol stack, the command/HTTP interpreter, the CSV '
+                'loaders and the field codec with coverage-guided inputs seeded from valid shapes; monitors inside the targets check bounded work '
+                '(loop-iteration and virtual-time budgets, real-time hang watchdog) and a fixed probe after every input; leaked request objects '
+                'are taken from the at-exit leak report. The structured generators of the other checks run under ASan/UBSan too.',
+        'design_ref': 'DESIGN.md section 2, C20',
+        'note': 'trusted: sanitizer runtimes, the probes in harness/fuzz_*.cpp; reach = what coverage-guided generation got to (reported per target)',
+        'technique': 'coverage-guided fuzzing (libFuzzer) of the real code under ASan/UBSan with in-target bounded-work and probe monitors',
+    },
     'C17': {
         'text': 'Histories of getNextPoll interleaved with priority changes, front/back insertion, late-loaded messages, removal and reload; '
                 'an online monitor checks the stride-scheduling waiting bound and proportional shares on perturbation-free windows.',
